@@ -112,7 +112,7 @@ theorem applyOp_frame (d : ModDesc) (s : St) (op : Op) (s' : St) (h : applyOp d 
         refine ⟨⟨rfl, rfl, rfl, rfl, rfl⟩, by simp, rfl, ?_, fun _ _ => rfl⟩
         intro q hq
         have hne : ¬ p = q := fun e => hq (e ▸ memPtr_reach d s.2 idx p hp)
-        simp [List.getElem?_set, hne]
+        simp [hne]
   | tableSet idx slot f =>
     simp only [applyOp] at h
     cases hp : tabPtr d s.2 idx with
